@@ -497,7 +497,8 @@ theorem getInfo_congr {s s' : SState} (h : s'.infos = s.infos) (j : Nat) :
 write-order node. -/
 theorem handleRemove_safe {s : SState} (h : Safe s) (ve : VE) :
     Safe (handleRemove s ve) ∧
-      (∀ m, m ∈ s.prob → m.info ≠ ve.info → m ∈ (handleRemove s ve).prob) := by
+      (∀ m, m ∈ s.prob → m.info ≠ ve.info → m ∈ (handleRemove s ve).prob) ∧
+      (∀ j, (getInfo s j).admitted = false → (getInfo (handleRemove s ve) j).admitted = false) := by
   unfold handleRemove
   dsimp only
   by_cases hadm : (getInfo s ve.info).admitted = true
@@ -568,7 +569,7 @@ theorem handleRemove_safe {s : SState} (h : Safe s) (ve : VE) :
     cases hwo : (getInfo s ve.info).wo with
     | none =>
       rw [unlinkWo_none (by rw [hwo3]; exact hwo)]
-      refine ⟨⟨⟨?_, by rw [hc3, hp3]; exact hlen3⟩, by rw [hf3]; exact h.nofault⟩, ?_⟩
+      refine ⟨⟨⟨?_, by rw [hc3, hp3]; exact hlen3⟩, by rw [hf3]; exact h.nofault⟩, ?_, ?_⟩
       · refine h.toNodesCore.detach ve.info (fun j hj => by rw [hO3 j hj])
           (fun j hj => by rw [hO3 j hj]) (fun j hj => by rw [hO3 j hj])
           (by rw [hI3]) (by rw [hI3]; exact hwo) (by rw [hI3])
@@ -581,6 +582,10 @@ theorem handleRemove_safe {s : SState} (h : Safe s) (ve : VE) :
         rw [e, hwo] at this; cases this
       · intro m hm hne
         rw [hp3]; exact (hmemP m).mpr ⟨hm, hne⟩
+      · intro j hj
+        by_cases e : j = ve.info
+        · rw [e, hI3]
+        · rw [hO3 j e]; exact hj
     | some wid =>
       obtain ⟨wn, hwn, hwnid, hwninfo⟩ := h.woNode _ _ hwo
       have hfindW : findWo s.wo wid = some wn := by
@@ -603,7 +608,7 @@ theorem handleRemove_safe {s : SState} (h : Safe s) (ve : VE) :
       have hI4 : getInfo s4 ve.info =
           { getInfo s ve.info with admitted := false, ao := none, wo := none } := by
         rw [hg4, hI3]; simp
-      refine ⟨⟨⟨?_, by rw [hc4, hp4]; exact hlen3⟩, by rw [hf4]; exact h.nofault⟩, ?_⟩
+      refine ⟨⟨⟨?_, by rw [hc4, hp4]; exact hlen3⟩, by rw [hf4]; exact h.nofault⟩, ?_, ?_⟩
       · refine h.toNodesCore.detach ve.info (fun j hj => by rw [hO4 j hj])
           (fun j hj => by rw [hO4 j hj]) (fun j hj => by rw [hO4 j hj])
           (by rw [hI4]) (by rw [hI4]) (by rw [hI4])
@@ -624,14 +629,469 @@ theorem handleRemove_safe {s : SState} (h : Safe s) (ve : VE) :
           rw [← Option.some.inj e1]; exact hwninfo
       · intro m hm hne
         rw [hp4]; exact (hmemP m).mpr ⟨hm, hne⟩
+      · intro j hj
+        by_cases e : j = ve.info
+        · rw [e, hI4]
+        · rw [hO4 j e]; exact hj
   · rw [if_neg hadm]
     have hna : (getInfo s ve.info).admitted = false := by
       cases hx : (getInfo s ve.info).admitted with
       | false => rfl
       | true => exact absurd hx hadm
-    refine ⟨h.withInfo _ _ ?_ ?_ rfl, fun m hm _ => hm⟩
+    refine ⟨h.withInfo _ _ ?_ ?_ rfl, fun m hm _ => hm, ?_⟩
     · simp only; exact (h.notAdm_ao hna).symm
     · simp only; exact (h.notAdm_wo hna).symm
+    · intro j hj
+      rw [getInfo_withInfo]
+      by_cases e : ve.info = j
+      · rw [if_pos e]; exact hna
+      · rw [if_neg e]; exact hj
+
+/-! ### `handle_admit` -/
+
+theorem handleAdmit_safe {p : Params} {s : SState} (h : Safe s) (key : Nat) (hash : UInt64)
+    (ve : VE) (weight : Nat) (hna : (getInfo s ve.info).admitted = false)
+    (hlt : ve.info < s.nextId) :
+    Safe (handleAdmit p s key hash ve weight) ∧ Keeps s (handleAdmit p s key hash ve weight) := by
+  unfold handleAdmit
+  dsimp only
+  -- counters and weight
+  generalize hs2 : (if p.q.d8 = true then addCounters s 1 weight
+    else withInfo (addCounters s 1 weight) ve.info (fun i => { i with weight := weight })) = s2
+  have hO2 : ∀ j, j ≠ ve.info → getInfo s2 j = getInfo s j := by
+    intro j hj
+    have : ¬ ve.info = j := fun e => hj e.symm
+    rw [← hs2]; split
+    · rfl
+    · rw [getInfo_withInfo, if_neg this]; rfl
+  have hI2 : (getInfo s2 ve.info).ao = (getInfo s ve.info).ao ∧
+      (getInfo s2 ve.info).wo = (getInfo s ve.info).wo := by
+    rw [← hs2]; split
+    · exact ⟨rfl, rfl⟩
+    · rw [getInfo_withInfo, if_pos rfl]; exact ⟨rfl, rfl⟩
+  have hp2 : s2.prob = s.prob := by rw [← hs2]; split <;> rfl
+  have hw2 : s2.wo = s.wo := by rw [← hs2]; split <;> rfl
+  have hc2 : s2.cec = s.cec + 1 := by rw [← hs2]; split <;> rfl
+  have hn2 : s2.nextId = s.nextId := by rw [← hs2]; split <;> rfl
+  have hf2 : s2.fault = s.fault := by rw [← hs2]; split <;> rfl
+  -- access-order node
+  generalize hnode : ({ id := s2.nextId, key := key, hash := hash, info := ve.info } : AoNode) = node
+  have hnid : node.id = s.nextId := by rw [← hnode]; exact hn2
+  have hninfo : node.info = ve.info := by rw [← hnode]
+  generalize hs4 : withInfo { s2 with prob := s2.prob ++ [node], nextId := s2.nextId + 1 } ve.info
+    (fun i => { i with ao := some s2.nextId }) = s4
+  have hg4 : ∀ j, getInfo s4 j =
+      if ve.info = j then { getInfo s2 ve.info with ao := some s2.nextId } else getInfo s2 j := by
+    intro j; rw [← hs4, getInfo_withInfo]; rfl
+  have hp4 : s4.prob = s.prob ++ [node] := by rw [← hs4]; simp only [withInfo]; rw [hp2]
+  have hw4 : s4.wo = s.wo := by rw [← hs4]; exact hw2
+  have hc4 : s4.cec = s.cec + 1 := by rw [← hs4]; exact hc2
+  have hn4 : s4.nextId = s.nextId + 1 := by rw [← hs4]; simp only [withInfo]; rw [hn2]
+  have hf4 : s4.fault = s.fault := by rw [← hs4]; exact hf2
+  have hO4 : ∀ j, j ≠ ve.info → getInfo s4 j = getInfo s j := by
+    intro j hj
+    have : ¬ ve.info = j := fun e => hj e.symm
+    rw [hg4, if_neg this, hO2 j hj]
+  have hA4 : (getInfo s4 ve.info).ao = some s.nextId := by rw [hg4, if_pos rfl]; simp only; rw [hn2]
+  have hW4 : (getInfo s4 ve.info).wo = none := by
+    rw [hg4, if_pos rfl]; simp only; rw [hI2.2]; exact h.notAdm_wo hna
+  -- write-order node
+  generalize hs5 : (if p.ttl.isSome = true then
+      withInfo { s4 with wo := s4.wo ++ [{ id := s4.nextId, key := key, info := ve.info }],
+                         nextId := s4.nextId + 1 } ve.info
+        (fun i => { i with wo := some s4.nextId })
+    else s4) = s5
+  have hO5 : ∀ j, j ≠ ve.info → getInfo s5 j = getInfo s j := by
+    intro j hj
+    have : ¬ ve.info = j := fun e => hj e.symm
+    rw [← hs5]; split
+    · rw [getInfo_withInfo, if_neg this]; exact hO4 j hj
+    · exact hO4 j hj
+  have hA5 : (getInfo s5 ve.info).ao = some s.nextId := by
+    rw [← hs5]; split
+    · rw [getInfo_withInfo, if_pos rfl]; exact hA4
+    · exact hA4
+  have hp5 : s5.prob = s.prob ++ [node] := by rw [← hs5]; split <;> exact hp4
+  have hc5 : s5.cec = s.cec + 1 := by rw [← hs5]; split <;> exact hc4
+  have hf5 : s5.fault = s.fault := by rw [← hs5]; split <;> exact hf4
+  have hW5 : (s5.wo = s.wo ∧ (getInfo s5 ve.info).wo = none ∧ s5.nextId = s.nextId + 1) ∨
+      (∃ wn : WoNode, wn.id = s.nextId + 1 ∧ wn.info = ve.info ∧ s5.wo = s.wo ++ [wn] ∧
+        (getInfo s5 ve.info).wo = some (s.nextId + 1) ∧ s5.nextId = s.nextId + 2) := by
+    rw [← hs5]; split
+    · refine Or.inr ⟨{ id := s4.nextId, key := key, info := ve.info }, hn4, rfl, ?_, ?_, ?_⟩
+      · simp only [withInfo]; rw [hw4]
+      · rw [getInfo_withInfo, if_pos rfl]; simp only; rw [hn4]
+      · simp only [withInfo]; rw [hn4]
+    · exact Or.inl ⟨hw4, hW4, hn4⟩
+  -- admitted
+  generalize hs6 : withInfo s5 ve.info (fun i => { i with admitted := true }) = s6
+  have hg6 : ∀ j, getInfo s6 j =
+      if ve.info = j then { getInfo s5 ve.info with admitted := true } else getInfo s5 j := by
+    intro j; rw [← hs6, getInfo_withInfo]
+  have hO6 : ∀ j, j ≠ ve.info → getInfo s6 j = getInfo s j := by
+    intro j hj
+    have : ¬ ve.info = j := fun e => hj e.symm
+    rw [hg6, if_neg this, hO5 j hj]
+  have hp6 : s6.prob = s.prob ++ [node] := by rw [← hs6]; exact hp5
+  have hw6 : s6.wo = s5.wo := by rw [← hs6]; rfl
+  have hn6 : s6.nextId = s5.nextId := by rw [← hs6]; rfl
+  have hW6 : (getInfo s6 ve.info).wo = (getInfo s5 ve.info).wo := by rw [hg6, if_pos rfl]
+  refine ⟨⟨⟨?_, ?_⟩, ?_⟩, ?_⟩
+  · refine h.toNodesCore.attach ve.info hlt hna (fun j hj => by rw [hO6 j hj])
+      (fun j hj => by rw [hO6 j hj]) (fun j hj => by rw [hO6 j hj]) node hnid hninfo hp6
+      (by rw [hg6, if_pos rfl]; exact hA5) (by rw [hg6, if_pos rfl]) ?_
+    rw [hw6, hn6, hW6]; exact hW5
+  · rw [hp6, ← hs6]; simp only [withInfo, List.length_append, List.length_singleton]
+    rw [hc5, h.count]
+  · rw [← hs6]; simp only [withInfo]; rw [hf5]; exact h.nofault
+  · intro m hm; rw [hp6]; exact List.mem_append_left _ hm
+
+/-! ### admission: victims and skipped nodes -/
+
+/-- The nodes `admit` selects: victims and skipped nodes are nodes of the list it walks, the
+victims are pairwise distinct and none of them is a skipped node. -/
+theorem admitLoop_split (p : Params) (s : SState) (cw cf : Nat) :
+    ∀ (l : List AoNode) (a : Admission), (l.map (·.id)).Nodup →
+      ∃ vs ss, (admitLoop p s cw cf l a).victims = a.victims ++ vs ∧
+        (admitLoop p s cw cf l a).skipped = a.skipped ++ ss ∧
+        (∀ m, m ∈ vs → m ∈ l) ∧ (∀ m, m ∈ ss → m ∈ l) ∧ (vs.map (·.id)).Nodup ∧
+        (∀ v, v ∈ vs → ∀ m, m ∈ ss → v.id ≠ m.id) := by
+  intro l
+  induction l with
+  | nil =>
+    intro a _
+    exact ⟨[], [], by simp [admitLoop], by simp [admitLoop], by simp, by simp, by simp, by simp⟩
+  | cons n rest ih =>
+    intro a hnd
+    simp only [List.map_cons, List.nodup_cons] at hnd
+    have hnot : ∀ m, m ∈ rest → n.id ≠ m.id := fun m hm e =>
+      hnd.1 (e ▸ List.mem_map.mpr ⟨m, hm, rfl⟩)
+    rw [admitLoop]
+    split
+    · split
+      · obtain ⟨vs, ss, h1, h2, h3, h4, h5, h6⟩ := ih
+          { a with vw := a.vw + (getInfo s _).weight, vf := a.vf + s.sk.frequency n.hash,
+                   victims := a.victims ++ [n], retries := 0 } hnd.2
+        refine ⟨n :: vs, ss, ?_, h2, ?_, fun m hm => List.mem_cons_of_mem _ (h4 m hm), ?_, ?_⟩
+        · rw [h1]; simp
+        · intro m hm
+          rcases List.mem_cons.mp hm with e | hm
+          · rw [e]; exact List.mem_cons_self
+          · exact List.mem_cons_of_mem _ (h3 m hm)
+        · simp only [List.map_cons, List.nodup_cons]
+          refine ⟨fun hin => ?_, h5⟩
+          obtain ⟨m, hm, e⟩ := List.mem_map.mp hin
+          exact hnot m (h3 m hm) e.symm
+        · intro v hv m hm
+          rcases List.mem_cons.mp hv with e | hv
+          · rw [e]; exact hnot m (h4 m hm)
+          · exact h6 v hv m hm
+      · dsimp only
+        split
+        · refine ⟨[], [n], by simp, by simp, by simp, ?_, by simp, by simp⟩
+          intro m hm; simp at hm; rw [hm]; exact List.mem_cons_self
+        · obtain ⟨vs, ss, h1, h2, h3, h4, h5, h6⟩ := ih
+            { a with skipped := a.skipped ++ [n], retries := a.retries + 1 } hnd.2
+          refine ⟨vs, n :: ss, h1, ?_, fun m hm => List.mem_cons_of_mem _ (h3 m hm), ?_, h5, ?_⟩
+          · rw [h2]; simp
+          · intro m hm
+            rcases List.mem_cons.mp hm with e | hm
+            · rw [e]; exact List.mem_cons_self
+            · exact List.mem_cons_of_mem _ (h4 m hm)
+          · intro v hv m hm
+            rcases List.mem_cons.mp hm with e | hm
+            · rw [e]; exact fun e' => hnot v (h3 v hv) e'.symm
+            · exact h6 v hv m hm
+    · exact ⟨[], [], by simp, by simp, by simp, by simp, by simp, by simp⟩
+
+/-- After the D7 repair the map entry found for a node shares the node's info. -/
+theorem entryOfNode_info {p : Params} (hd7 : p.q.d7 = false) {s : SState} {key info : Nat}
+    {ve : VE} (h : entryOfNode p s key info = some ve) : ve.info = info := by
+  unfold entryOfNode at h
+  split at h
+  · rename_i cur _
+    rw [hd7, Bool.false_or] at h
+    by_cases e : (cur.info == info) = true
+    · rw [if_pos e] at h
+      cases h
+      exact eq_of_beq e
+    · rw [if_neg e] at h; cases h
+  · cases h
+
+theorem safe_eraseMap {s : SState} (h : Safe s) (k : Nat) :
+    Safe { s with map := AL.erase s.map k } :=
+  h.of_eq rfl rfl rfl (Nat.le_refl _) rfl rfl
+
+theorem removeVictims_safe {p : Params} (hd7 : p.q.d7 = false) :
+    ∀ (vs : List AoNode) (s : SState) (sk : List AoNode), Safe s →
+      (∀ v, v ∈ vs → v ∈ s.prob) → (∀ m, m ∈ sk → m ∈ s.prob) → (vs.map (·.id)).Nodup →
+      (∀ v, v ∈ vs → ∀ m, m ∈ sk → v.id ≠ m.id) →
+      Safe (removeVictims p vs s sk).1 ∧
+        (∀ m, m ∈ (removeVictims p vs s sk).2 → m ∈ (removeVictims p vs s sk).1.prob) ∧
+        (∀ j, (getInfo s j).admitted = false →
+          (getInfo (removeVictims p vs s sk).1 j).admitted = false) := by
+  intro vs
+  induction vs with
+  | nil => intro s sk h _ hsk _ _; exact ⟨h, hsk, fun _ hj => hj⟩
+  | cons v rest ih =>
+    intro s sk h hvs hsk hnd hdis
+    simp only [List.map_cons, List.nodup_cons] at hnd
+    have hv : v ∈ s.prob := hvs v List.mem_cons_self
+    have hrest : ∀ r, r ∈ rest → r ∈ s.prob := fun r hr => hvs r (List.mem_cons_of_mem _ hr)
+    have hne : ∀ r, r ∈ rest → r.id ≠ v.id := fun r hr e =>
+      hnd.1 (e ▸ List.mem_map.mpr ⟨r, hr, rfl⟩)
+    rw [removeVictims, findAo_of_mem h.probIds hv]
+    dsimp only
+    split
+    · rename_i ve hve
+      have hinfo := entryOfNode_info hd7 hve
+      have h0 := safe_eraseMap h v.key
+      obtain ⟨h1, hkeep, hmono⟩ := handleRemove_safe h0 ve
+      have hkeep' : ∀ m, m ∈ s.prob → m.id ≠ v.id →
+          m ∈ (handleRemove { s with map := AL.erase s.map v.key } ve).prob := by
+        intro m hm hmid
+        refine hkeep m hm (fun e => hmid ?_)
+        exact h.info_inj hm hv (e.trans hinfo)
+      obtain ⟨i1, i2, i3⟩ := ih _ sk h1 (fun r hr => hkeep' r (hrest r hr) (hne r hr))
+        (fun m hm => hkeep' m (hsk m hm) (fun e => hdis v List.mem_cons_self m hm e.symm))
+        hnd.2 (fun r hr m hm => hdis r (List.mem_cons_of_mem _ hr) m hm)
+      exact ⟨i1, i2, fun j hj => i3 j (hmono j hj)⟩
+    · refine ih s (sk ++ [v]) h hrest ?_ hnd.2 ?_
+      · intro m hm
+        rcases List.mem_append.mp hm with hm | hm
+        · exact hsk m hm
+        · simp at hm; rw [hm]; exact hv
+      · intro r hr m hm
+        rcases List.mem_append.mp hm with hm | hm
+        · exact hdis r (List.mem_cons_of_mem _ hr) m hm
+        · simp at hm; rw [hm]; exact hne r hr
+
+theorem moveSkipped_safe : ∀ (ns : List AoNode) (s : SState), Safe s →
+    (∀ n, n ∈ ns → n ∈ s.prob) → Safe (moveSkipped ns s) ∧ Keeps s (moveSkipped ns s) := by
+  intro ns
+  induction ns with
+  | nil => intro s h _; exact ⟨h, Keeps.refl s⟩
+  | cons n rest ih =>
+    intro s h hns
+    rw [moveSkipped]
+    obtain ⟨h1, k1⟩ := moveNodeToBackAo_safe h (hns n List.mem_cons_self)
+    obtain ⟨h2, k2⟩ := ih _ h1 (fun m hm => k1 m (hns m (List.mem_cons_of_mem _ hm)))
+    exact ⟨h2, k1.trans k2⟩
+
+theorem removeCandidate_safe {p : Params} {s : SState} (h : Safe s) (key : Nat) (ve : VE) :
+    Safe (removeCandidate p s key ve) ∧ Keeps s (removeCandidate p s key ve) := by
+  unfold removeCandidate
+  split
+  · split
+    · exact ⟨safe_eraseMap h key, fun _ hm => hm⟩
+    · exact ⟨h, Keeps.refl s⟩
+  · exact ⟨h, Keeps.refl s⟩
+
+/-! ### the map: entries refer to allocated infos -/
+
+/-- Keys of the map are distinct and every value entry refers to an info id that has been
+allocated.  (Needed because `handle_admit` runs on the info of the map's current entry.) -/
+structure MapOK (s : SState) : Prop where
+  kn : (AL.keys s.map).Nodup
+  bound : ∀ k ve, AL.get? s.map k = some ve → ve.info < s.nextId
+
+theorem MapOK.frame {s s' : SState} (h : MapOK s) (hf : Frame s s') : MapOK s' :=
+  ⟨hf.kn h.kn, fun k ve hk => Nat.lt_of_lt_of_le (h.bound k ve (hf.mapSub h.kn k ve hk)) hf.nextId⟩
+
+theorem MapOK.frame0 {s s' : SState} (h : MapOK s) (hf : Frame0 s s') : MapOK s' :=
+  h.frame hf.toFrame
+
+/-! ### `handle_upsert` -/
+
+theorem applyUpdate_safe {p : Params} {s : SState} (h : Safe s) (ve : VE) (oldW newW : Nat) :
+    Safe (applyUpdate p s ve oldW newW) := by
+  unfold applyUpdate
+  dsimp only
+  rw [subCounters_eq (Nat.zero_le _)]
+  refine (moveToBackWoE_safe (moveToBackAoE_safe ?_ _).1 _).1
+  have h2 : ∀ w, Safe (addCounters { s with cec := s.cec - 0, cws := w } 0 newW) :=
+    fun w => h.of_eq rfl rfl rfl (Nat.le_refl _) rfl rfl
+  split
+  · exact h2 _
+  · exact (h2 _).withInfo _ _ rfl rfl rfl
+
+theorem admitOrReject_safe {p : Params} (hd7 : p.q.d7 = false) {s : SState} (h : Safe s)
+    (key : Nat) (hash : UInt64) (ve : VE) (newW : Nat)
+    (hna : (getInfo s ve.info).admitted = false) (hlt : ve.info < s.nextId) :
+    Safe (admitOrReject p s key hash ve newW) := by
+  unfold admitOrReject
+  dsimp only
+  obtain ⟨vs, ss, h1, h2, h3, h4, h5, h6⟩ :=
+    admitLoop_split p s newW (s.sk.frequency hash) s.prob {} h.probIds
+  generalize admitLoop p s newW (s.sk.frequency hash) s.prob {} = a at h1 h2 ⊢
+  have e1 : a.victims = vs := by rw [h1]; rfl
+  have e2 : a.skipped = ss := by rw [h2]; rfl
+  split
+  · have hfr := removeVictims_frame0 p a.victims s a.skipped
+    have hrv := removeVictims_safe hd7 a.victims s a.skipped h (by rw [e1]; exact h3)
+      (by rw [e2]; exact h4) (by rw [e1]; exact h5) (by rw [e1, e2]; exact h6)
+    generalize removeVictims p a.victims s a.skipped = r at hfr hrv ⊢
+    obtain ⟨s1, sk1⟩ := r
+    obtain ⟨r1, r2, r3⟩ := hrv
+    dsimp only at r1 r2 r3 hfr ⊢
+    obtain ⟨a1, a2⟩ := handleAdmit_safe (p := p) r1 key hash ve newW (r3 _ hna)
+      (Nat.lt_of_lt_of_le hlt hfr.nextId)
+    exact (moveSkipped_safe sk1 _ a1 (fun n hn => a2 n (r2 n hn))).1
+  · obtain ⟨c1, c2⟩ := removeCandidate_safe (p := p) h key ve
+    exact (moveSkipped_safe a.skipped _ c1 (fun n hn => c2 n (h4 n (by rw [← e2]; exact hn)))).1
+
+theorem handleUpsert_safe {p : Params} (hq : NoQuirks p) {s : SState} (h : Safe s) (hm : MapOK s)
+    (key : Nat) (hash : UInt64) (ve : VE) (oldW newW : Nat) :
+    Safe (handleUpsert p s key hash ve oldW newW) := by
+  have hd7 : p.q.d7 = false := by rw [hq]
+  unfold handleUpsert
+  dsimp only
+  generalize currentWeight p s key ve newW = nw
+  have h1 : Safe (withInfo s ve.info (fun i => { i with dirty := false })) :=
+    h.withInfo _ _ rfl rfl rfl
+  have hm1 : MapOK (withInfo s ve.info (fun i => { i with dirty := false })) :=
+    ⟨hm.kn, hm.bound⟩
+  generalize withInfo s ve.info (fun i => { i with dirty := false }) = s1 at h1 hm1 ⊢
+  by_cases c1 : (getInfo s1 ve.info).admitted = true
+  · rw [if_pos c1]; exact applyUpdate_safe h1 _ _ _
+  · rw [if_neg c1]
+    have hna : (getInfo s1 ve.info).admitted = false := by
+      cases hx : (getInfo s1 ve.info).admitted with
+      | false => rfl
+      | true => exact absurd hx c1
+    by_cases c2 : (!p.q.d7 && !isCurrentEntry s1 key ve) = true
+    · rw [if_pos c2]; exact h1
+    · rw [if_neg c2]
+      have hlt : ve.info < s1.nextId := by
+        rw [hd7] at c2
+        unfold isCurrentEntry at c2
+        cases hg : AL.get? s1.map key with
+        | none => rw [hg] at c2; simp at c2
+        | some cur =>
+          rw [hg] at c2
+          have : cur.info = ve.info := by simpa using c2
+          rw [← this]; exact hm1.bound key cur hg
+      by_cases c3 : hasEnoughCapacity p nw s1 = true
+      · rw [if_pos c3]; exact (handleAdmit_safe h1 _ _ _ _ hna hlt).1
+      · rw [if_neg c3]
+        by_cases c4 : tooBig p nw = true
+        · rw [if_pos c4]; exact (removeCandidate_safe h1 _ _).1
+        · rw [if_neg c4]; exact admitOrReject_safe hd7 h1 _ _ _ _ hna hlt
+
+theorem applyWrite_safe {p : Params} (hq : NoQuirks p) {s : SState} (h : Safe s) (hm : MapOK s)
+    (op : WOp) : Safe (applyWrite p s op) := by
+  cases op with
+  | upsert key hash ve oldW newW => exact handleUpsert_safe hq h hm _ _ _ _ _
+  | remove key ve => exact (handleRemove_safe h ve).1
+
+theorem safe_setWriteQ {s : SState} (h : Safe s) (q : List WOp) : Safe { s with writeQ := q } :=
+  h.of_eq rfl rfl rfl (Nat.le_refl _) rfl rfl
+
+theorem applyWrites_safe {p : Params} (hq : NoQuirks p) (n : Nat) :
+    ∀ (s : SState), Safe s → MapOK s → Safe (applyWrites p n s) := by
+  induction n with
+  | zero => intro s h _; exact h
+  | succ n ih =>
+    intro s h hm
+    unfold applyWrites
+    split
+    · exact h
+    · rename_i op rest _
+      have hm0 : MapOK { s with writeQ := rest } := ⟨hm.kn, hm.bound⟩
+      exact ih _ (applyWrite_safe hq (safe_setWriteQ h rest) hm0 op)
+        (hm0.frame0 (applyWrite_frame0 _ _ _))
+
+/-! ### eviction -/
+
+theorem trySkipUpdated_safe {s : SState} (h : Safe s) (key : Nat) :
+    Safe (trySkipUpdated s key).1 := by
+  unfold trySkipUpdated
+  split
+  · split
+    · exact (moveToBackWoE_safe (moveToBackAoE_safe h _).1 _).1
+    · exact h
+  · split
+    · rename_i n rest hp
+      exact (moveNodeToBackAo_safe h (by rw [hp]; exact List.mem_cons_self)).1
+    · exact h
+
+theorem removeExpiredAo_safe (p : Params) (n : Nat) :
+    ∀ (s : SState), Safe s → Safe (removeExpiredAo p n s) := by
+  induction n with
+  | zero => intro s h; exact h
+  | succ n ih =>
+    intro s h
+    unfold removeExpiredAo
+    split
+    · exact h
+    · split
+      · dsimp only
+        split
+        · exact ih _ (handleRemove_safe (safe_eraseMap h _) _).1
+        · split
+          · exact ih _ (trySkipUpdated_safe h _)
+          · exact trySkipUpdated_safe h _
+      · exact h
+
+theorem removeExpiredWo_safe (p : Params) (n : Nat) :
+    ∀ (s : SState), Safe s → Safe (removeExpiredWo p n s) := by
+  induction n with
+  | zero => intro s h; exact h
+  | succ n ih =>
+    intro s h
+    unfold removeExpiredWo
+    split
+    · exact h
+    · rename_i nd rest hw
+      split
+      · dsimp only
+        split
+        · exact ih _ (handleRemove_safe (safe_eraseMap h _) _).1
+        · split
+          · split
+            · exact ih _ (moveToBackWoE_safe (moveToBackAoE_safe h _).1 _).1
+            · exact h
+          · exact ih _ (moveNodeToBackWo_safe h (by rw [hw]; exact List.mem_cons_self)).1
+      · exact h
+
+theorem evictExpired_safe (p : Params) {s : SState} (h : Safe s) : Safe (evictExpired p s) := by
+  unfold evictExpired
+  dsimp only
+  split
+  · split
+    · exact removeExpiredAo_safe _ _ _ (removeExpiredWo_safe _ _ _ h)
+    · exact removeExpiredWo_safe _ _ _ h
+  · split
+    · exact removeExpiredAo_safe _ _ _ h
+    · exact h
+
+theorem evictLruLoop_safe (p : Params) (n : Nat) :
+    ∀ (s : SState) (wte ev : Nat), Safe s → Safe (evictLruLoop p n s wte ev) := by
+  induction n with
+  | zero => intro s _ _ h; exact h
+  | succ n ih =>
+    intro s wte ev h
+    unfold evictLruLoop
+    split
+    · exact h
+    · split
+      · exact h
+      · dsimp only
+        split
+        · split
+          · exact ih _ _ _ (trySkipUpdated_safe h _)
+          · exact trySkipUpdated_safe h _
+        · split
+          · exact ih _ _ _ (handleRemove_safe (safe_eraseMap h _) _).1
+          · split
+            · exact ih _ _ _ (trySkipUpdated_safe h _)
+            · exact trySkipUpdated_safe h _
+
+theorem enableSketch_safe (p : Params) {s : SState} (h : Safe s) : Safe (enableSketch p s) := by
+  unfold enableSketch
+  split
+  · exact h.of_eq rfl rfl rfl (Nat.le_refl _) rfl rfl
+  · exact h
 
 end Sync
 end MiniMoka
